@@ -128,6 +128,15 @@ func (n *node) checkState(fail failer, full bool) {
 			fail("C06", "pool:content-or-flags-differ", "real pool (hash:valid) %v, model %v", gp, wp)
 		}
 	}
+	if n.deepVerify {
+		// the node's own integrity verification (signatures of all stored blocks + history consistency) must pass in every state
+		var err error
+		if pan, msg := catch(func() { err = visor.CheckDatabase(n.DB, idP.Pub, nil) }); pan {
+			fail("C04,C07", "CheckDatabase:panic", "the node's own database verification panicked: %s", msg)
+		} else if err != nil {
+			fail("C04,C07", "CheckDatabase:fails-on-a-state-reached-by-accepted-operations", "the node's own database verification fails: %v", err)
+		}
+	}
 	if !full {
 		return
 	}
